@@ -22,23 +22,66 @@ func (x *Exec) setResult(s *State, result ssa.Value, v Value) {
 	}
 }
 
-func (x *Exec) call(s *State, in ssa.Instruction, c *ssa.CallCommon, result ssa.Value) bool {
+// atSite checks the contract's "at <site> assert" clauses for an instruction
+// (calls, and stores into maps: site "mapupdate", "mapupdate#2", ...).
+func (x *Exec) atSite(s *State, in ssa.Instruction) bool {
 	site := x.sites[in]
-	if x.con != nil && len(x.con.At[site]) > 0 {
-		ok := true
+	if x.con == nil {
+		return true
+	}
+	if a, has := x.siteAlias[in]; has && (len(x.con.At[a]) > 0 || len(x.con.AtGhost[a]) > 0) {
+		site = a
+	}
+	ok := true
+	for _, gc := range x.con.AtGhost[site] {
 		func() {
-			defer x.recoverSpec("at "+site, &ok)
-			for i, cl := range x.con.At[site] {
-				env := x.envFor(s, nil)
-				t := env.checkTerm(cl)
-				o := x.ob("at", site+"#"+clauseName(cl, i), cl.Src, in)
-				s.check(o, t)
+			defer x.recoverSpec("at "+site+" ghost", &ok)
+			g, declared := x.v.db.Ghosts[gc.Label]
+			env := x.envFor(s, nil)
+			if !declared {
+				env.fail("ghost assignment to undeclared ghost variable %s", gc.Label)
+			}
+			val := env.eval(gc.Expr)
+			gt := env.resolveTypeStr(g.Type)
+			ls := leavesOf(gt)
+			ts := flatten(val)
+			if len(ls) != len(ts) {
+				env.fail("ghost assignment %s: shape mismatch", gc.Label)
+			}
+			for i, l := range ls {
+				key := "GH:" + gc.Label + l.Path
+				x.regKey(key, l.Sort)
+				if !x.mods.all && x.mods.allows(key, "") != "true" {
+					ob := x.ob("frame", "ghost#"+sanitize(key), "ghost assignment to "+key+" outside the modifies clause", in)
+					s.check(ob, "false")
+				}
+				s.heap.m[key] = ts[i]
 			}
 		}()
-		if !ok {
-			return false
-		}
 	}
+	if !ok {
+		return false
+	}
+	if len(x.con.At[site]) == 0 {
+		return true
+	}
+	func() {
+		defer x.recoverSpec("at "+site, &ok)
+		for i, cl := range x.con.At[site] {
+			env := x.envFor(s, nil)
+			t := env.checkTerm(cl)
+			o := x.ob("at", site+"#"+clauseName(cl, i), cl.Src, in)
+			s.check(o, t)
+		}
+	}()
+	return ok
+}
+
+func (x *Exec) call(s *State, in ssa.Instruction, c *ssa.CallCommon, result ssa.Value) bool {
+	if !x.atSite(s, in) {
+		return false
+	}
+	site := x.sites[in]
 	if b, ok := c.Value.(*ssa.Builtin); ok {
 		return x.builtin(s, in, b, c, result)
 	}
